@@ -309,13 +309,9 @@ func (s *Sim) monEnd(t *Task) {
 		ids := append([]string(nil), t.held...)
 		s.violate("C09", "lock-leak", t.heldBy[ids[0]],
 			fmt.Sprintf("task %s (%s) returned (err=%v) still holding %v", t.ID, t.EntryKind, t.Err, ids))
-		// free them so that the run can go on and other tasks are not blamed
-		for _, k := range ids {
-			if s.locks[k] == t {
-				delete(s.locks, k)
-			}
-		}
-		t.held = nil
+		// the leaked locks stay held, as they would in a real application: later
+		// requests needing them block (C08 completion)
+		s.probe("lock-leaked")
 	}
 	if t.EntryKind == "send" {
 		return
